@@ -51,7 +51,7 @@ def warm():
 
 
 # ------------------------------------------------------------------------------------------------ generation
-STEMS = ["report", "data set", "Notes", "a", "ünï", "x-1", "UPPER", "v1.2", "readme", "2024_q1"]
+STEMS = ["report", "data set", "Notes", "a", "ünï", "x-1", "UPPER", "v1.2", "readme", "2024_q1", "report_一", "rĀga", "日本語", "a\u0100b", "emoji_😀"]
 DIRS = ["", "", "docs/", "docs/sub/", "a b/", "Ünï/", "./", "./docs/"]
 
 
